@@ -693,7 +693,8 @@ class Obl:
         ts = [norm_text(t) for t in self.terms]
         if self.kind in ("overflow:Add", "overflow:Mul"):
             ts = sorted(ts)
-        return "%s|%s|%s" % (self.fn.id, self.kind, "|".join(ts))
+        # closures are numbered in source order: adding or removing an unrelated closure must not rename an obligation
+        return "%s|%s|%s" % (re.sub(r"\{closure#\d+\}", "{closure}", self.fn.id), self.kind, "|".join(ts))
 
     def old_key(self):
         return "%s|%s|%s" % (self.fn.id, self.kind, "|".join(norm_text_v1(t) for t in self.terms))
